@@ -308,6 +308,28 @@ CLAIMS = {
     ),
 }
 
+# clauses added in the last session (DESIGN.md §3.3, "Added in the last session")
+_EXTRA = {
+    "C01": " A score is finite only at feasible points: under positive=True every subdiff_distance returns +inf on a negative coefficient (R-POS-SCORE).",
+    "C03": " The intercept step is c times the intercept gradient with c * L_b <= 2, L_b the curvature of the datafit's own value() in the intercept (descent lemma, exact for constant curvature; R-ISTEP-BOUND).",
+    "C04": " Under positive=True the lifted prox_1d of every separable penalty is non-negative and finite on a grid of inputs x steps (below and above gamma - 1) x feature weights (below and above gamma / step) (R-NONNEG-PROX).",
+    "C06": " The arms of every piecewise accessor (`if |r| < delta`) agree at the junction: the piecewise loss and its derivatives are continuous where the pieces meet (R-PIECEWISE-CONT).",
+    "C08": " The fixed-point score available for every penalty is sound: prox_1d satisfies the first-order condition of the penalty's own value() on every order region (R-PROX-SCORE-SCALAR).",
+    "C10": " The dense and CSC coordinate kernels also agree on a design with an empty column carrying a non-zero coefficient; a refusal of sparse input names the `_sparse` method that is missing (R-MSGNAMES).",
+    "C11": " path() and warm-started fit() start each solve from a model fit that belongs to the coefficients they start from (R-PATH, R-WARMFIT).",
+    "C12": " The warm-start model fit of _glm_fit is recomputed from the design and the start coefficients (R-WARMFIT).",
+    "C13": " Accepted cells do not fail in compiled code: the datafit accessors stay inside their arrays on tall and wide designs (R-ACCESSOR-BOUNDS); the refusal text names the looked-up method (R-MSGNAMES).",
+    "C14": " Solvers that never initialise the datafit reach no attribute assigned by initialize alone (R-LAZYREAD); every prox (prox_vec included) hands `positive` on (R-POS-PROX).",
+    "C15": " The working-set size is bounded below by the row / coordinate support, a task- and feature-symmetric count (R-WSSIZE).",
+    "C16": " The intercept criterion |intercept_update_step| is a positive multiple of the intercept gradient of value() (R-ISTEP).",
+    "C17": " The inline fixed-point residual of FISTA is taken with the gradient at the iterate, closures included (R-GRADPOINT).",
+    "C18": " Solvers that never initialise the datafit reach no attribute cached by an earlier initialisation (R-LAZYREAD).",
+    "C19": " A datafit that takes log / sqrt of, or divides by, an expression of the target refuses, in initialize and initialize_sparse, every sign of y (zero included) that leaves the domain (R-TARGET-DOMAIN).",
+}
+for _p, _t in _EXTRA.items():
+    if _p in CLAIMS:
+        CLAIMS[_p]["text"] = CLAIMS[_p]["text"] + _t
+
 _PENDING = "check not yet built in this revision of the framework (work in progress)"
 
 NOT_APPLICABLE = {
